@@ -379,13 +379,44 @@ Fixpoint no_right_nested (e : expr) : bool :=
   | ArrayReallocate old _ n => no_right_nested old && no_right_nested n
   end.
 
-(** * Exact arithmetic: the + - * skeleton of an expression in the commutative ring Z; every other
-      node is an opaque atom valued by [rho]. *)
-Fixpoint denoteZ (rho : expr -> Z) (e : expr) : Z :=
+(** * Exact arithmetic: the meaning of an expression in the commutative ring Z (no rounding, no
+      overflow).  + - * are the ring operations; comparisons, min/max, && || (booleans as 0/1: min and
+      max) have their integer meaning; everything else (variables, float constants, memory,
+      attributes, allocation) is an uninterpreted but compositional function, so that the statement
+      covers every tree. *)
+Record zinterp : Type := mkZinterp {
+  zi_var : string -> Z;
+  zi_float : F -> Z;
+  zi_attr : Z -> string -> Z;
+  zi_index : Z -> Z -> Z;
+  zi_alloc : ty -> Z -> Z;
+  zi_realloc : Z -> ty -> Z -> Z
+}.
+
+Definition b2z (b : bool) : Z := if b then 1%Z else 0%Z.
+
+Fixpoint denoteZ (I : zinterp) (e : expr) : Z :=
   match e with
-  | Add l r => (denoteZ rho l + denoteZ rho r)%Z
-  | Subtract l r => (denoteZ rho l - denoteZ rho r)%Z
-  | Multiply l r => (denoteZ rho l * denoteZ rho r)%Z
+  | Var x => zi_var I x
+  | AttributeAccess t a => zi_attr I (denoteZ I t) a
+  | ArrayIndex t i => zi_index I (denoteZ I t) (denoteZ I i)
   | IntegerLiteral z => z
-  | _ => rho e
+  | FloatLiteral f => zi_float I f
+  | BooleanLiteral b => b2z b
+  | Add l r => (denoteZ I l + denoteZ I r)%Z
+  | Subtract l r => (denoteZ I l - denoteZ I r)%Z
+  | Multiply l r => (denoteZ I l * denoteZ I r)%Z
+  | Equal l r => b2z (denoteZ I l =? denoteZ I r)%Z
+  | NotEqual l r => b2z (negb (denoteZ I l =? denoteZ I r)%Z)
+  | GreaterThan l r => b2z (denoteZ I l >? denoteZ I r)%Z
+  | LessThan l r => b2z (denoteZ I l <? denoteZ I r)%Z
+  | GreaterThanOrEqual l r => b2z (denoteZ I l >=? denoteZ I r)%Z
+  | LessThanOrEqual l r => b2z (denoteZ I l <=? denoteZ I r)%Z
+  | And l r => Z.min (denoteZ I l) (denoteZ I r)
+  | Or l r => Z.max (denoteZ I l) (denoteZ I r)
+  | Max l r => Z.max (denoteZ I l) (denoteZ I r)
+  | Min l r => Z.min (denoteZ I l) (denoteZ I r)
+  | BooleanToInteger x => denoteZ I x
+  | ArrayAllocate t n => zi_alloc I t (denoteZ I n)
+  | ArrayReallocate old t n => zi_realloc I (denoteZ I old) t (denoteZ I n)
   end.
